@@ -70,8 +70,28 @@ Definition hdr_eqb (r : recon) (h : N * bytes * option N * Z * bytes) : bool :=
   && opt_eqb N.eqb (h_id (r_header r)) id && Z.eqb (h_att (r_header r)) att
   && bytes_eqb (r_name r) name.
 
+(** The question decode puts to the JSON library (single?, payload, number of targets), or [None]
+    when it returns before asking.  Compared with the recorded call, so that a payload that differs
+    from the model's is seen even when both sides end in an error. *)
+Definition decode_call (r : recon) (nt : nat) : option (bool * bytes * nat) :=
+  let ev := is_event (h_type (r_header r)) in
+  match r_buffers r with
+  | [] => None
+  | [payload] =>
+    if ev then match payload with [] => None | _ => Some (false, payload, S nt) end
+    else if Nat.eqb nt 1 && negb (is_ack (h_type (r_header r)))
+         then Some (true, match payload with [] => [123; 125]%N | _ => payload end, 1%nat)
+         else Some (false, match payload with [] => [91; 93]%N | _ => payload end, nt)
+  | payload :: _ => Some (false, payload, if ev then S nt else nt)
+  end.
+
+Definition call_eqb (a b : bool * bytes * nat) : bool :=
+  let '(s1, p1, k1) := a in let '(s2, p2, k2) := b in
+  Bool.eqb s1 s2 && bytes_eqb p1 p2 && Nat.eqb k1 k2.
+
 (** Correspondence: the model, run on the same frames with the same library answers, shows the
-    same per-frame outcomes, the same header, and the same decode result. *)
+    same per-frame outcomes, the same header, the same question to the JSON library and the same
+    decode result. *)
 Definition agree (c : dcase) : bool :=
   match model_run c with
   | Panic => false
@@ -82,6 +102,8 @@ Definition agree (c : dcase) : bool :=
        | None, None => match c_dec c with None => true | Some _ => false end
        | Some r, Some h =>
          hdr_eqb r h
+         && opt_eqb call_eqb (decode_call r (c_nt c))
+                    (match c_um c with Some (s, p, k, _) => Some (s, p, k) | None => None end)
          && match decode (um_oracle (c_um c)) r (c_nt c), c_dec c with
             | Ok vs, Some OFin =>
               list_eqb bytes_eqb (concat (map bins_of vs)) (c_bins c)
